@@ -466,6 +466,117 @@ def shrink_history(case, seeds):
     return dict(case, history=hist)
 
 
+# ---- several tables with their own regex_flags in one process -------------------------
+
+MULTI_ALPHAS = [["a", "ab", "c"], ["A", "ab", "C"], ["MQ1", "mq2", "Ip"], ["a", "AB", "c"]]
+MULTI_PATS = ["a", "A", "ab", "AB", "Ab", "c", "C", "a.*", "A.*", ".*", "a|c", "A|C", "[ac]", "[AC].*", "mq.", "MQ.", "mq1|zz", "ip", "IP|mq2", "a?b", "A?B"]
+
+
+def tablesel_ref_other(tc, q):
+    """rows of a plain regex selector under the other case folding (statistics only)"""
+    p, cnt, off = split_sel(q["one"][1])
+    if cnt is not None or off:
+        return None
+    rx = re.compile(p, 0 if tc["flags"] != "sensitive" else re.IGNORECASE)
+    return [i for i, x in enumerate(tc["idx"]) if rx.fullmatch(x)]
+
+
+def multi_case(rng):
+    """2-3 tables alive in one process that differ in regex_flags (default /
+    re.IGNORECASE / 0), same index names up to letter case; the same string
+    selectors evaluated on each of them in a random interleaving (so every
+    table comes first for some pattern).  Tuples only on case-insensitive
+    tables (the views of rows[s1, s2] do not inherit regex_flags)."""
+    alpha = rng.choice(MULTI_ALPHAS)
+    nt = rng.choice([2, 2, 3])
+    flags = ["sensitive", rng.choice(["default", "default", "ignorecase"])] + (["default"] if nt == 3 else [])
+    rng.shuffle(flags)
+    n = rng.randint(1, 8)
+    base = [rng.choice(alpha) for _ in range(n)]
+    tables = []
+    for fl in flags:
+        idx = list(base) if rng.random() < 0.7 else [rng.choice(alpha) for _ in range(rng.randint(1, 8))]
+        tables.append({"idx": idx, "cols": [["x", xcol(len(idx))]], "flags": fl})
+    steps = []
+    for _ in range(rng.randint(2, 6)):
+        p = rng.choice(MULTI_PATS + alpha)
+        s = ["str", mk_str(p, rng.choice([None, None, None, 0, 1, -1]), rng.choice([0, 0, 0, 1, -1]))]
+        order = list(range(nt))
+        rng.shuffle(order)
+        for k in order + ([rng.randrange(nt)] if rng.random() < 0.3 else []):
+            if flags[k] != "sensitive" and rng.random() < 0.25:
+                steps.append([k, {"tup": [rng.choice([["none"], ["slice", None, None], ["str", ".*"]]), s]}])
+            else:
+                steps.append([k, {"one": s}])
+    return {"idx": [], "cols": [], "queries": [], "multi": {"tables": tables, "steps": steps}}
+
+
+def emit_multi_file(cases, mobs):
+    N = vlib.Interner()
+    pats, names, items, ids, unrep = set(), set(), [], [], []
+    for i, (c, ob) in enumerate(zip(cases, mobs)):
+        m = c["multi"]
+        tabs = []
+        for tc in m["tables"]:
+            names.update(tc["idx"])
+            tabs.append(f"({cbool(tc['flags'] != 'sensitive')}, mkST {clist([cn(N(x)) for x in tc['idx']])} " +
+                        clist([f"({cn(N('col:' + k))}, {clist([cz(v) for v in vals])})" for k, vals in tc["cols"]]) + ")")
+        steps, ok = [], True
+        for (k, q), o in zip(m["steps"], ob):
+            qs = f"(QOne {emit_sel(q['one'], N, pats)})" if "one" in q else f"(QTup {clist([emit_sel(x, N, pats) for x in q['tup']])})"
+            parts = [emit_res(o["rows"], cnat), emit_res(o["indices"], cz), emit_res(o["mask"], cbool)]
+            if any(p is None for p in parts):
+                ok = False
+                break
+            steps.append(f"({cnat(k)}, {qs}, HViews {parts[0]} {parts[1]} {parts[2]})")
+        if not ok:
+            unrep.append(i)
+            continue
+        items.append(f"({clist(tabs)},\n  {clist(steps)})")
+        ids.append(i)
+    mts = []
+    for fl in (re.IGNORECASE, 0):
+        mt = []
+        for p in sorted(pats):
+            rx = re.compile(p, fl)
+            mt.append(f"({cn(N(p))}, {clist([cn(N(x)) for x in sorted(names) if rx.fullmatch(x)])})")
+        mts.append(clist(mt))
+    text = ("From Coq Require Import List ZArith NArith.\nFrom XD Require Import model.Table model.TableSel run.RunTableSel.\n"
+            "Import ListNotations.\nDefinition mci : mtable := " + mts[0] + ".\nDefinition mcs : mtable := " + mts[1] + ".\n"
+            "Definition cases : list mcase :=\n " + ";\n ".join(items).join(["[", "]"]) + ".\nEval vm_compute in (mmismatches mci mcs cases).\n")
+    return text, ids, unrep
+
+
+def multi_mismatches(ctx, cases, mobs, tag):
+    per = max(1, min(100, (len(cases) + vlib.NPROC - 1) // vlib.NPROC))
+    groups = list(vlib.chunks(list(range(len(cases))), per))
+    texts, maps, mism = [], [], []
+    for g in groups:
+        text, ids, unrep = emit_multi_file([cases[i] for i in g], [mobs[i] for i in g])
+        texts.append(text); maps.append([g[k] for k in ids]); mism += [g[k] for k in unrep]
+    for (rc, so, se), ids in zip(vlib.coq_eval_files(ctx, texts, tag), maps):
+        lst = vlib.parse_nat_list(so) if rc == 0 else None
+        if lst is None:
+            raise vlib.InfraError(f"multi-table case file evaluation failed: rc={rc} {se[-800:]} {so[-300:]}")
+        mism += [ids[k] for k in lst]
+    return sorted(set(mism))
+
+
+def shrink_multi(case, seed):
+    def bad(c):
+        r = vlib.run_impl(RUNNER, {"cases": [c]}, hashseed=seed)
+        return any(r["mfail"][0])
+    steps = list(case["multi"]["steps"])
+    i = 0
+    while i < len(steps):
+        cand = dict(case, multi=dict(case["multi"], steps=steps[:i] + steps[i + 1:]))
+        if cand["multi"]["steps"] and bad(cand):
+            steps = cand["multi"]["steps"]
+        else:
+            i += 1
+    return dict(case, multi=dict(case["multi"], steps=steps))
+
+
 def first_failure(cases, fails):
     """smallest failing (table, query)"""
     best = None
@@ -494,7 +605,9 @@ def run(ctx):
                 + f"; PYTHONHASHSEED {seeds[0]}..{seeds[-1]} (compiled) + pure build; non-trivial = a regex/span/range/name-list or tuple "
                 "query selecting at least one row, or a history where a re-evaluated selector changes its rows after an edit; distinct by (table, query); "
                 "plus histories on ONE table object: 1-4 selectors (single and as tuples) evaluated, then 1-4 rounds of [edit the index "
-                "column: a cell by position / a cell by name::count<<off / the whole column; evaluate the SAME selectors again]")
+                "column: a cell by position / a cell by name::count<<off / the whole column; evaluate the SAME selectors again]; plus scenarios with "
+                "2-3 tables alive in one process that differ in the constructor argument regex_flags (default / IGNORECASE / 0) and in "
+                "the letter case of names, the same string selectors evaluated on each in random interleaving")
     proof_ok = vlib.standard_proof_part(ctx, "props/C08.v", allowed_axioms=(), extra_targets=["run/RunTableSel.vo"])
     tables, alphas, singles = build_cases(ctx, maxlen, ctx.pick(12, 400), None)
     obs1, ref1, fail1, diff1 = run_cases(ctx, singles, seeds, "s")
@@ -520,9 +633,15 @@ def run(ctx):
                     ctx.nontrivial.add(json.dumps([c["idx"], c["history"]], sort_keys=True))
                 seen[k] = o["rows"]
 
+    # several tables with their own regex_flags alive in one process
+    mcases = [multi_case(ctx.rng) for _ in range(ctx.pick(250, 4000))]
+    mobs, mref, mfail, mdiff = run_cases(ctx, mcases, hseeds, "m", keys=("mobs", "mref", "mfail"))
+    mmism = multi_mismatches(ctx, mcases, mobs, "m")
+    nm = sum(len(c["multi"]["steps"]) for c in mcases)
+
     nq = sum(len(c["queries"]) for c in cases)
-    ctx.evaluations = nq * (len(seeds) + 1) + nh * (len(hseeds) + 1)
-    ctx.traces = nq + len(hcases)
+    ctx.evaluations = nq * (len(seeds) + 1) + (nh + nm) * (len(hseeds) + 1)
+    ctx.traces = nq + len(hcases) + len(mcases)
     kinds, judged, errs = {}, 0, {}
     for c, ob, rf in zip(cases, obs, refs):
         for q, o, r in zip(c["queries"], ob, rf):
@@ -538,6 +657,11 @@ def run(ctx):
                                      "selector_kinds": kinds, "judged_by_reference_selector": judged,
                                      "outside_domain_compared_to_model_only": nq - judged, "errors_observed": errs,
                                      "hash_seeds": seeds, "builds": ["compiled", "pure"],
+                                     "multi_table_scenarios": len(mcases), "multi_table_steps": nm,
+                                     "multi_table_steps_where_flags_matter": sum(
+                                         1 for c, rf in zip(mcases, mref) for (k, q), r in zip(c["multi"]["steps"], rf)
+                                         if "one" in q and isinstance(r, list) and r != "outside" and
+                                         r != tablesel_ref_other(c["multi"]["tables"][k], q)),
                                      "histories_on_one_table": len(hcases), "history_steps": nh,
                                      "reselections_whose_result_changed_after_an_edit": changed}
     mid = len(singles) // 2
@@ -549,12 +673,41 @@ def run(ctx):
                             "" if bad is None else str(bad[3])[:300]))
     ctx.obligations.append((f"hash seeds {seeds[0]}..{seeds[-1]} and both builds give identical results", not diffs, f"{len(diffs)} differing tables"))
 
+    mbad = first_failure([dict(c, idx=c["multi"]["tables"][0]["idx"], queries=c["multi"]["steps"]) for c in mcases], mfail)
+    ctx.obligations.append(("correspondence: model = implementation on every multi-table scenario (each table matches with its own regex_flags)",
+                            not mmism, f"{len(mmism)} mismatching scenarios"))
+    ctx.obligations.append(("oracle: with several tables alive in one process every table selects by its own regex_flags, whatever the order of use",
+                            mbad is None and not mdiff, "" if mbad is None else str(mbad[3])[:300]))
     hbad = first_failure([dict(c, queries=c["history"]) for c in hcases], hfail)
     ctx.obligations.append(("correspondence: model = implementation on every history (selections interleaved with index-column edits on one table)",
                             not hmism, f"{len(hmism)} mismatching histories"))
     ctx.obligations.append(("oracle: after every edit of the index column the same selectors denote the rows of the CURRENT column",
                             hbad is None and not hdiff, "" if hbad is None else str(hbad[3])[:300]))
-    if bad is None and hbad is not None:
+    if bad is None and hbad is None and (mbad is not None or mdiff):
+        note = None
+        if mbad is not None:
+            # state shared between tables may outlive a scenario (all scenarios of a chunk run in one
+            # process): look for a scenario that fails when run alone in a fresh process
+            failing = sorted((i for i, fl in enumerate(mfail) if any(fl)), key=lambda i: len(mcases[i]["multi"]["steps"]))
+            small = None
+            for i in failing[:40]:
+                r1 = vlib.run_impl(RUNNER, {"cases": [mcases[i]]}, hashseed=hseeds[0])
+                if any(r1["mfail"][0]):
+                    small = shrink_multi(mcases[i], hseeds[0])
+                    break
+            if small is None:
+                small = mcases[mbad[1]]
+                note = ("this scenario fails only when other scenarios ran before it in the same process "
+                        f"({len(failing)} scenarios failed in the batch); first failure there: {str(mbad[3])[:300]}")
+        else:
+            small = mcases[mdiff[0][0]]
+        r = vlib.run_impl(RUNNER, {"cases": [small]}, hashseed=hseeds[0])
+        if note:
+            r["mfail"][0] = [[note]]
+        vlib.violation(ctx, {"kind": "oracle-multi-table", "what": "with several tables in one process a table does not select by its own regex_flags (or the result depends on the seed)",
+                             "case": small, "impl": r["mobs"][0], "reference_rows": r["mref"][0], "failures": r["mfail"][0],
+                             "hashseed": hseeds[0], "how_to_replay": "./check C08 --replay <this file>"})
+    elif bad is None and hbad is not None:
         _, ci, qi, f = hbad
         small = shrink_history(dict(hcases[ci], history=hcases[ci]["history"][:qi + 1]), hseeds)
         r = vlib.run_impl(RUNNER, {"cases": [small]}, hashseed=hseeds[0])
@@ -576,8 +729,11 @@ def run(ctx):
         vlib.violation(ctx, {"kind": "seed", "what": "row selection depends on the hash seed / build",
                              "case": single_case(cases[ci], qi), "config_a": ["compiled", seeds[0]], "obs_a": x,
                              "config_b": list(cfg), "obs_b": y, "hashseed": cfg[1], "build": cfg[0]})
-    elif mism or hmism or not proof_ok:
+    elif mism or hmism or mmism or not proof_ok:
         what = list(getattr(ctx, "broken", []))
+        if mmism:
+            i = mmism[0]
+            what.append(f"correspondence of multi-table scenarios broke on {len(mmism)} cases, first: {json.dumps(mcases[i]['multi'])} impl={json.dumps(mobs[i])}")
         if hmism:
             i = hmism[0]
             what.append(f"correspondence of histories broke on {len(hmism)} cases, first: {json.dumps(hcases[i])} impl={json.dumps(hobs[i])}")
@@ -621,12 +777,13 @@ def replay(ctx, data):
     seeds = [0, int(data.get("hashseed", 0))]
     outs = [vlib.run_impl(RUNNER, {"cases": [case]}, build=data.get("build", "compiled") if k else "compiled", hashseed=k) for k in seeds]
     print(json.dumps({"impl": outs[0]["obs"][0], "reference": outs[0]["ref"][0], "failures": outs[0]["fail"][0],
-                      "history_impl": outs[0]["hobs"][0], "history_failures": outs[0]["hfail"][0]}, indent=1))
-    allf = [f for o in outs for f in o["fail"][0] + o["hfail"][0] if f]
+                      "history_impl": outs[0]["hobs"][0], "history_failures": outs[0]["hfail"][0],
+                      "multi_impl": outs[0]["mobs"][0], "multi_failures": outs[0]["mfail"][0]}, indent=1))
+    allf = [f for o in outs for f in o["fail"][0] + o["hfail"][0] + o["mfail"][0] if f]
     if allf:
         print("VIOLATION property=C08 replay=(given) :", allf[0])
         return 1
-    if outs[0]["obs"] != outs[1]["obs"] or outs[0]["hobs"] != outs[1]["hobs"]:
+    if outs[0]["obs"] != outs[1]["obs"] or outs[0]["hobs"] != outs[1]["hobs"] or outs[0]["mobs"] != outs[1]["mobs"]:
         print(f"VIOLATION property=C08 replay=(given) : result differs between hash seeds {seeds}")
         return 1
     print("replay: implementation agrees with the reference selector on this case")
